@@ -178,6 +178,9 @@ def api_declarations(pairs, seed):
         check('type_hint_for primed', interp(aut.type_hint_for(["x'"])) != inh(XP))
         check('type_action_for', interp(aut.type_action_for(['x'])) != z3.And(inh(X), inh(XP)))
         check('type_hint_for constant', interp(aut.type_hint_for(['c'])) != inh(C))
+        # explicit lists that mix an identifier with its primed sibling, a constant and a Boolean
+        check('type_hint_for x and primed x', interp(aut.type_hint_for(['x', "x'"])) != z3.And(inh(X), inh(XP)))
+        check('type_hint_for primed x, constant, Boolean', interp(aut.type_hint_for(["x'", 'c', 'b'])) != z3.And(inh(XP), inh(C)))
         check('_conjoin_type_hints', exp.export(tyh._conjoin_type_hints(['x', 'c', 'b'], aut)) != z3.And(inh(X), inh(C)))
         table = bv.bitblast_table({'x': dict(type='int', dom=(lo, hi)), "x'": dict(type='int', dom=(lo, hi))})
         init, safety = bv.type_invariants({'x': table['x']})
